@@ -260,7 +260,8 @@ class Engine:
             if c is not None:
                 for k in c.__mro__:
                     if (k.__name__, attr) in FIELDS:
-                        if FIELDS.get(attr) == FIELDS[(k.__name__, attr)]:
+                        from pv.contract import OWN_MAPS
+                        if FIELDS.get(attr) == FIELDS[(k.__name__, attr)] and (k.__name__, attr) not in OWN_MAPS:
                             return attr          # same kind as the global declaration: one shared map
                         return '%s.%s' % (k.__name__, attr)
             elif (cls, attr) in FIELDS and FIELDS.get(attr) != FIELDS[(cls, attr)]:
@@ -801,6 +802,15 @@ class Engine:
             return VBool(z3.Or([f(x.t, s) for x in alts]))
         if name == 'join':
             return self.str_join(st, recv, args[0])
+        if name in ('find', 'rfind') and len(args) == 1 and isinstance(args[0], VStr):
+            # under-specified but sound: -1 iff the text does not occur; otherwise an index at which it occurs (which of
+            # several occurrences is left open, so nothing proved depends on first / last)
+            sub = args[0].t
+            r = z3.Int(fresh_name('find'))
+            st.pc.append(z3.And(r >= -1, r <= z3.Length(s) - z3.Length(sub)))
+            st.pc.append((r == -1) == z3.Not(z3.Contains(s, sub)))
+            st.pc.append(z3.Implies(r >= 0, z3.SubString(s, r, z3.Length(sub)) == sub))
+            return VInt(r)
         if name == 'isidentifier':
             return VBool(z3.Function('$isidentifier', S, B)(s))
         if name in ('isalpha', 'isdigit', 'isupper', 'islower') and not args:
